@@ -177,13 +177,24 @@ def run_saveload(item, scratch: str, n: int):
         (base * 2).sum().backward()
     before = _state_of(t)
     via = c["via"]
-    path = os.path.join(scratch, f"t{n}.npz")
+    nm = c.get("name", "npz")
+    stem = {"npz": f"t{n}.npz", "bare": f"t{n}", "dotted": f"t{n}.v1", "two": f"t{n}.v1"}[nm]
+    path = os.path.join(scratch, stem)
+    where = path if path.endswith(".npz") else path + ".npz"      # numpy.savez's convention
     if via == "str":
         mg.save(path, t)
-        back = mg.load(path)
+        if nm == "two":       # a second archive whose name differs only after the dot must not replace the first
+            mg.save(os.path.join(scratch, f"t{n}.v2"), mg.tensor(vals * 0 + 7))
+        if not os.path.exists(where):
+            return ("archive location", os.path.basename(where), sorted(os.listdir(scratch))[:6])
+        back = mg.load(where)
     elif via == "path":
         mg.save(pathlib.Path(path), t)
-        back = mg.load(pathlib.Path(path))
+        if nm == "two":
+            mg.save(pathlib.Path(os.path.join(scratch, f"t{n}.v2")), mg.tensor(vals * 0 + 7))
+        if not os.path.exists(where):
+            return ("archive location", os.path.basename(where), sorted(os.listdir(scratch))[:6])
+        back = mg.load(pathlib.Path(where))
     else:
         buf = io.BytesIO()
         mg.save(buf, t)
